@@ -127,12 +127,12 @@ def r09b(ck, fb):
             gm = b.calls(r'utils::get_md5$')
             cl = [l for l in range(1, b.argc + 1) if b.local_name(l) == 'content']
             t = Taint(b, local_src=cl)
-            ck.require(len(gm) == 1 and t.op_tainted(gm[0].args[0]), 'R09b', 'ConfigValue::%s:get_md5(content)' % fn, b.where(), 'get_md5 is not applied to the content parameter')
+            ck.require(len(gm) >= 1 and all(t.op_tainted(_x.args[0]) for _x in gm), 'R09b', 'ConfigValue::%s:get_md5(content)' % fn, b.where(), 'get_md5 is not applied to the content parameter')
     sc = ck.body(CA + 'set_config', 'R09b')
     if sc:
         gm = sc.calls(r'utils::get_md5$')
         t = Taint(sc, place_src=field_place_src('value'))
-        ck.require(len(gm) == 1 and t.op_tainted(gm[0].args[0]), 'R09b', 'set_config:get_md5(param.value)', sc.where(), 'set_config does not hash the published value')
+        ck.require(len(gm) >= 1 and all(t.op_tainted(_x.args[0]) for _x in gm), 'R09b', 'set_config:get_md5(param.value)', sc.where(), 'set_config does not hash the published value')
         uv = sc.calls(re.escape(CV + 'update_value') + '$')
         ck.require(len(uv) >= 1, 'R09b', 'set_config:update_value', sc.where(), 'existing values are not updated through update_value')
         for s in uv:
@@ -143,7 +143,7 @@ def r09b(ck, fb):
         gm = st.calls(r'utils::get_md5$')
         vl = [l for l in range(1, st.argc + 1) if st.local_name(l) == 'val']
         t = Taint(st, local_src=vl)
-        ck.require(len(gm) == 1 and t.op_tainted(gm[0].args[0]), 'R09b', 'set_tmp_config:get_md5(val)', st.where(), 'temporary value md5 is not the hash of the temporary content')
+        ck.require(len(gm) >= 1 and all(t.op_tainted(_x.args[0]) for _x in gm), 'R09b', 'set_tmp_config:get_md5(val)', st.where(), 'temporary value md5 is not the hash of the temporary content')
 
 
 def r09c(ck, fb):
@@ -322,7 +322,7 @@ def r09f(ck, fb):
     if dc:
         rm = util.mut_calls_on_field(dc, 'cache', r'HashMap::<K, V, S, A>::remove$')
         t = Taint(dc, local_src=[2])
-        ck.require(len(rm) == 1 and t.op_tainted(rm[0].args[1]), 'R09f', 'del_config:removes-key', dc.where(), 'del_config does not remove the key it was given')
+        ck.require(len(rm) >= 1 and all(t.op_tainted(_x.args[1]) for _x in rm), 'R09f', 'del_config:removes-key', dc.where(), 'del_config does not remove the key it was given')
         ck.require(not cfg.guard_atoms(dc, rm[0].bb) if rm else False, 'R09f', 'del_config:unconditional', dc.where(), 'the removal is conditional')
 
 
